@@ -199,7 +199,20 @@ pub fn run_c08(args: &Args) {
         ],
         "F8c",
     );
-    out.count_n("corpus", 3);
+    // found by the trace-level proof (Props/C19 `stale_index_drives_out_of_range`): `Swapchain::set` moves to the new
+    // segment and cycle but leaves `cur_idx` as it was until the next clock update; the output is read in between
+    run_seq_c19(
+        &mut out,
+        &[
+            Step::Send(Spec::Foci { n: 1, seg: 0, tr: Some((0xFF, 0)), rep: 0xFFFF, div: 40, ss: 21760, size: 65536, seed: 2 }),
+            Step::Send(Spec::Foci { n: 8, seg: 1, tr: Some((0xFF, 0)), rep: 0xFFFF, div: 40, ss: 21760, size: 2, seed: 3 }),
+        ],
+        &[30_000_000_000, 0],
+        "stale-index",
+    );
+    // `zero_sound_speed_reachable`: a device sound speed below 7.8 mm/s is packed as 0; the firmware divides by it
+    run_seq_c19(&mut out, &[Step::Send(Spec::Foci { n: 1, seg: 0, tr: Some((0xFF, 0)), rep: 0xFFFF, div: 40, ss: 0, size: 2, seed: 4 })], &[1_000_000], "zero-ss");
+    out.count_n("corpus", 5);
 
     // bounded-exhaustive: lax start, then every sequence of `depth` letters
     let depth = 3;
@@ -295,6 +308,7 @@ fn c19_alphabet(t_now: u64) -> Vec<Step> {
 const ADVANCES: [u64; 6] = [0, 1_000, 25_000 * 512, 1_000_000, 100_000_000, 3_000_000_000];
 
 fn run_seq_c19(out: &mut Out, seq: &[Step], advs: &[u64], tag: &str) {
+    let read_early = tag != "d2" && tag != "rand" || READ_EARLY.load(std::sync::atomic::Ordering::Relaxed);
     let mut s = Session::new(out, 1, T0);
     s.send(&Spec::Clear);
     s.send(&Spec::SilSteps(1, 1, false));
@@ -302,14 +316,21 @@ fn run_seq_c19(out: &mut Out, seq: &[Step], advs: &[u64], tag: &str) {
     let mut at_line = 0u64;
     for (k, st) in seq.iter().enumerate() {
         apply(&mut s, st);
-        if !s.dead {
+        // the current output is also read straight after a send, before the clock moves on
+        // (thorough and corpus cases: always; quick: every other step)
+        let mut r = String::new();
+        if !s.dead && matches!(st, Step::Send(_) | Step::Abort(..)) && (read_early || k % 2 == 1) {
+            r = s.read();
+        }
+        if !s.dead && !r.contains('P') {
             let t = s.w.t + advs[k % advs.len()];
             s.clk(t);
+            if !s.dead {
+                r = s.read();
+            }
         }
         at_line = s.out.lines;
         if !s.dead {
-            let r = s.read();
-            at_line = s.out.lines;
             if r.contains('P') {
                 // a read-back accessor aborted (caught per accessor): find out which and where
                 let cpu = &s.w.cpus[0];
@@ -335,9 +356,12 @@ fn run_seq_c19(out: &mut Out, seq: &[Step], advs: &[u64], tag: &str) {
     }
 }
 
+static READ_EARLY: std::sync::atomic::AtomicBool = std::sync::atomic::AtomicBool::new(false);
+
 pub fn run_c19(args: &Args) {
     let mut out = Out::new(&args.out);
     let thorough = args.tier == "thorough";
+    READ_EARLY.store(thorough, std::sync::atomic::Ordering::Relaxed);
     let mut rng = Rng::new(args.seed ^ 0xC19);
     let alpha = c19_alphabet(T0);
 
@@ -375,7 +399,20 @@ pub fn run_c19(args: &Args) {
         &[0, 125_000_000, 0, 0, 2_500_000],
         "F18",
     );
-    out.count_n("corpus", 3);
+    // found by the trace-level proof (Props/C19 `stale_index_drives_out_of_range`): `Swapchain::set` moves to the new
+    // segment and cycle but leaves `cur_idx` as it was until the next clock update; the output is read in between
+    run_seq_c19(
+        &mut out,
+        &[
+            Step::Send(Spec::Foci { n: 1, seg: 0, tr: Some((0xFF, 0)), rep: 0xFFFF, div: 40, ss: 21760, size: 65536, seed: 2 }),
+            Step::Send(Spec::Foci { n: 8, seg: 1, tr: Some((0xFF, 0)), rep: 0xFFFF, div: 40, ss: 21760, size: 2, seed: 3 }),
+        ],
+        &[30_000_000_000, 0],
+        "stale-index",
+    );
+    // `zero_sound_speed_reachable`: a device sound speed below 7.8 mm/s is packed as 0; the firmware divides by it
+    run_seq_c19(&mut out, &[Step::Send(Spec::Foci { n: 1, seg: 0, tr: Some((0xFF, 0)), rep: 0xFFFF, div: 40, ss: 0, size: 2, seed: 4 })], &[1_000_000], "zero-ss");
+    out.count_n("corpus", 5);
 
     // bounded-exhaustive depth 2 (quick: strided) / depth 2 full + depth 3 strided (thorough)
     let n = alpha.len();
